@@ -260,6 +260,7 @@ func runC11(res *lp.Result) {
 	rng := lp.NewRng(*seed)
 	r := newValRunner(res, "C11")
 	inexactFloats(res)
+	largeCollections(res, "C11")
 	res.Notes = append(res.Notes,
 		"NULL is handed to a scalar codec as a nil pointer or nil interface, and as a nil slice only where the slice is the preferred type "+
 			"(blob, custom, inet); a nil []byte given for a uuid is refused and a nil []rune given for a varchar is written as the empty string (recorded by C14)",
@@ -447,6 +448,7 @@ func runC12(res *lp.Result) {
 		"map of more than one entry only the length is compared; (3) sizes that v2 cannot express (elements above 65535 bytes, more " +
 		"than 65535 elements). Non-trivial = value is not NULL, zero or empty; distinct by (type, version, value)."
 	rng := lp.NewRng(*seed)
+	largeCollections(res, "C12")
 	r := newValRunner(res, "C12")
 	// (1) vectors
 	for _, sv := range specVectors() {
